@@ -136,6 +136,33 @@ CLAIMS = {
              'periodic trigger (R5); planned jobs win and lost processes accumulate over all failed instances (R6).',
         technique='guarded reachability over the call graph + guard/eviction matrix extraction + who-may-write (ast)',
         design='4/C06'),
+    'C11': dict(
+        text='The synthesis as a function over all finite histories is NOT decided (value-level). Decided for every '
+             'path: the synthesis state (running list, state, forced state, expected_exit, per-instance payloads) has no '
+             'writer outside ProcessStatus, package-wide, model writers excepted by ownership (R1); every report ends '
+             'with a re-synthesis on the entry of its own instance (R2); the classification STOPPED_STATES / '
+             'RUNNING_STATES / STOPPING of the running list (R3); the decision structure of the state shown and of the '
+             'forced-state arbitration, frozen from the statement (R4, R5).',
+        technique='package-wide who-may-write + must-call + guard-fact tables of the synthesis decision structure (ast)',
+        design='4/C11'),
+    'C12': dict(
+        text='Equality of N replicated databases under all interleavings and truth w.r.t. the real Supervisors are NOT '
+             'decided. Decided for every path: each of the 7 process-related listener handlers applies locally and '
+             'publishes the same payload under the same facts (R1); writer/reader table agreement of the 8 publication '
+             'headers, forwarding filter and fan-out (R2); snapshot transferred before the authorization result, every '
+             'entry loaded under the sender identifier, handshake trigger (R3); acceptance guards of the consumers '
+             '(R4).',
+        technique='call pairing with fact equality + writer/reader table agreement + must-call order (ast)',
+        design='4/C12'),
+    'C13': dict(
+        text='Non-interference over all later message sequences beyond these guards is NOT decided. Decided for every '
+             'path: ISOLATED has no successor and _state no raw writer (R1); every publication / notification handler '
+             'is dominated by the origin filter, two listed pre-filter headers excepted, and is_valid() rejects isolated, '
+             'ambiguous or address-mismatching origins (R2); proxies are created only for non-isolated peers, stopped on '
+             'isolation, and nothing is pushed outside get_proxy (R3); consumer state / timestamp guards (R4); handshake '
+             'verdict dispatch, exhaustive over AuthorizationTypes (R5).',
+        technique='must-pass-through (dominating facts) + who-may-construct/call + table constraints + dispatch effects (ast)',
+        design='4/C13'),
 }
 
 PENDING_REASON = 'check not implemented yet in this revision (static rules designed in DESIGN.md section 4)'
